@@ -30,6 +30,7 @@ RAny == [t |-> "any"]
 ROneOf(S) == [t |-> "oneof", v |-> S]
 RIntRange(lo, hi) == [t |-> "intrange", lo |-> lo, hi |-> hi]
 RAnyInt == [t |-> "anyint"]                  \* some integer
+RLines(lo, hi) == [t |-> "lines", lo |-> lo, hi |-> hi]   \* bulk string of lo..hi newline-terminated lines
 RNone == [t |-> "none"]
 RClosed == [t |-> "closed"]
 
@@ -52,6 +53,11 @@ Match(e, o) ==
     [] e.t = "oneof" -> \E x \in e.v : Match(x, o)
     [] e.t = "err" -> o.t = "err"
     [] e.t = "anyint" -> o.t = "int"
+    [] e.t = "closed" -> o.t = "closed"
+    [] e.t = "lines" ->
+         /\ o.t = "bulk"
+         /\ LET n == Cardinality({i \in 1..Len(o.v) : o.v[i] = 10}) IN n >= e.lo /\ n <= e.hi
+         /\ (Len(o.v) = 0 \/ o.v[Len(o.v)] = 10)
     [] e.t = "intrange" ->
          /\ o.t = "int"
          /\ IsLooseInt(o.v)
